@@ -3,6 +3,9 @@ package props
 import (
 	"fmt"
 	"strings"
+	"time"
+
+	"github.com/alibaba/RedisShake/pkg/simrt"
 
 	utils "github.com/alibaba/RedisShake/redis-shake/common"
 	conf "github.com/alibaba/RedisShake/redis-shake/configure"
@@ -44,6 +47,88 @@ func braceKey(t *tape.Tape) []byte {
 }
 
 func runC15(c *core.Ctx) *core.Violation {
+	if c.T.Choose(8) == 7 {
+		return runC15Shard(c)
+	}
+	return runC15Direct(c)
+}
+
+// runC15Shard observes, in a simulated resume-enabled sync of a cluster shard with slot boundaries [l, r],
+// the checkpoint key the tool actually uses on the target (EXISTS / HSET) and that a key of that name in the
+// source RDB is not copied.
+func runC15Shard(c *core.Ctx) *core.Violation {
+	t := c.T
+	c.Sub = "shard-sync"
+	env.DefaultOptions(conf.TypeSync)
+	lc := env.CaptureLog("info", 2<<20)
+	conf.Options.ResumeFromBreakPoint = true
+	var l, r int
+	switch t.Choose(4) {
+	case 0:
+		l = t.Choose(16384)
+		r = l
+	case 1:
+		l, r = 0, 16383
+	case 2:
+		l = t.Choose(16384)
+		r = l + t.Choose(16384-l)
+	default:
+		l, r = []int{0, 5461, 10923}[t.Choose(3)], 0
+		r = l + 5460
+	}
+	c.Sample = map[string]interface{}{"sub": "shard-sync", "slot_range": fmt.Sprintf("[%d,%d]", l, r)}
+	c.Key = uint64(l)<<20 | uint64(r)
+	var viol *core.Violation
+	s := simrt.Run(c.TT, t, simrt.Config{MaxSteps: 2000000, MaxSimTime: time.Hour, Trace: c.Trace}, func(s *simrt.Sim) {
+		e := NewSyncEnv(c, s, lc)
+		e.Node.SlotLeftBoundary, e.Node.SlotRightBoundary = l, r
+		// what the reference says the checkpoint key may be: any name hashing into [l, r] that starts with the checkpoint prefix.
+		// Plant, in the source RDB, the key the tool will choose (taken from the tool's own function, judged below by the reference slot).
+		name := utils.ChoseSlotInRange(utils.CheckpointKey, l, r)
+		items := []rc.Item{{Kind: "selectdb", DB: 0},
+			{Kind: "key", Key: []byte(name), Val: &rc.Value{Kind: rc.KString, Str: []byte("must-not-be-copied")}, Type: rc.TString},
+			{Kind: "key", Key: []byte("ordinary"), Val: &rc.Value{Kind: rc.KString, Str: []byte("v")}, Type: rc.TString}}
+		e.Src.RDB, _ = rc.WriteRDB(9, items, rc.Zero, true)
+		e.Src.Stream = append(respCmd(bs("SELECT", "0")...), respCmd(bs("SET", "after", "1")...)...)
+		e.StartTool()
+		e.WaitUntil(20*time.Second, 100*time.Millisecond, func() bool { return len(e.IncrLog()) >= 1 })
+		s.Sleep(1500 * time.Millisecond)
+		if e.ToolAborted() {
+			viol = core.Violate("abort", "shard,err="+env.ErrClass(e.AbortText()), "shard sync aborted: %s", e.AbortText())
+			return
+		}
+		seen := map[string]bool{}
+		for _, a := range e.Tgt.Applied {
+			n := a.Name()
+			if (n == "exists" || n == "hset" || n == "hgetall" || n == "hdel") && len(a.Args) >= 2 && strings.HasPrefix(string(a.Args[1]), "redis-shake-checkpoint") {
+				seen[string(a.Args[1])] = true
+			}
+			if n == "restore" && strings.HasPrefix(string(a.Args[1]), "redis-shake-checkpoint") {
+				viol = core.Violate("checkpoint-key-copied", "full-sync", "the full phase restored the key %q from the source", a.Args[1])
+				return
+			}
+		}
+		if len(seen) == 0 {
+			viol = core.Violate("checkpoint-key-range", "never-used", "resume is enabled but the tool never touched a checkpoint key on the target")
+			return
+		}
+		for k := range seen {
+			if sl := rc.KeySlot([]byte(k)); sl < l || sl > r {
+				viol = core.Violate("checkpoint-key-range", "used-outside", "the shard syncer uses checkpoint key %q, which hashes to slot %d outside [%d,%d]", k, sl, l, r)
+				return
+			}
+		}
+		if e.Tgt.Get(0, "ordinary") == nil {
+			viol = core.Violate("checkpoint-key-range", "ordinary-key-lost", "the ordinary key of the RDB was not copied")
+		}
+	})
+	c.Absorb(s)
+	c.Probe("shard_sync_observed")
+	c.Nontrivial = true
+	return viol
+}
+
+func runC15Direct(c *core.Ctx) *core.Violation {
 	t := c.T
 	env.DefaultOptions(conf.TypeSync)
 	env.CaptureLog("error", 1<<16)
@@ -171,10 +256,10 @@ func init() {
 			"and be rejected by the key filter under five filter configurations; distinct = hash of (keys, ranges); every run is non-trivial. " +
 			"The mapping is a pure function: schedule and fault dimensions do not apply to this part (no simulator involvement)",
 		Assumptions: []string{
-			"pure-function part only; the slot filter of full sync and the checkpoint key actually written by a shard syncer are observed in the SYNC scenario checks",
+			"7/8 of the runs are the pure-function part (no simulator involvement); 1/8 observe, in a simulated resume-enabled sync of a shard with slot boundaries, the checkpoint key actually used on the target and that it is not copied from the source; the slot filter of the full phase is exercised by C06/C07",
 			"the cluster client library's GetSlot (used by ChoseSlotInRange) is third-party code and is only judged through the returned key",
 		},
-		RealVsStub: "real: utils.KeyToSlot, utils crc16, latencymonitor crc16/findKeyInRange (reached through scratch-only export shims), utils.ChoseSlotInRange, filter.FilterKey; no simulated component is involved",
-		ProbeNames: []string{"single_slot_range", "several_open_braces", "empty_tag"},
+		RealVsStub: "shard part: real dbSync pipeline + checkpoint loader against simulated master/target; direct part: real: utils.KeyToSlot, utils crc16, latencymonitor crc16/findKeyInRange (reached through scratch-only export shims), utils.ChoseSlotInRange, filter.FilterKey; no simulated component is involved",
+		ProbeNames: []string{"single_slot_range", "several_open_braces", "empty_tag", "shard_sync_observed"},
 	})
 }
